@@ -598,8 +598,8 @@ Definition alloc_page (v : vam) (lr : lref) (size align flags sub slot : Z) : va
       end
   end.
 
-(* Free + freeWithLock *)
-Definition bl_free (v : vam) (lr : lref) (slot : Z) : vam * out unit :=
+(* free + freeWithLock; keep = keepBlocks: no block is released (the unwind of a failed Allocate) *)
+Definition bl_free (v : vam) (lr : lref) (slot : Z) (keep : bool) : vam * out unit :=
   let a := get_alloc v slot in
   match get_blist v lr, get_block v lr (a_blk a) with
   | Some l, Some b =>
@@ -623,7 +623,7 @@ Definition bl_free (v : vam) (lr : lref) (slot : Z) : vam * out unit :=
         let '(m3, s3) := sm_sub (v_m v2) (bk_mem b) s2 in
         let b' := mkBlock (bk_id b) (bk_mem b) s3 mt' in
         let bs3 := replace_block (bl_blocks l) b' in
-        let canDelete := bl_min l <? zlen bs3 in
+        let canDelete := negb keep && (bl_min l <? zlen bs3) in
         let '(bs4, toDelete) :=
           if meta_is_empty mt' && (hasEmpty || budgetExceeded) && canDelete then
             (remove_block bs3 (bk_id b'), Some b')
@@ -704,7 +704,7 @@ Fixpoint unwind_loop (v : vam) (lr : lref) (done : list Z) : vam * out unit :=
   match done with
   | [] => (v, OK tt)
   | s :: tl =>
-    let '(v1, r) := bl_free v lr s in
+    let '(v1, r) := bl_free v lr s true in
     match r with
     | OK _ => unwind_loop (set_alloc v1 s (set_allocated (get_alloc v1 s) false)) lr tl
     | STUCK => (v1, STUCK)
